@@ -114,7 +114,7 @@ def stored_volume(prog, chk, tier):
     chk.floor('producers of stored volumes', n, 2)
 
 
-def trig(fn, field, pi, base='(crystal)'):
+def trig(fn, field, pi, base='crystal'):
     arg = Rat.sym('%s.%s' % (base, field)) * pi / Rat.const(180)
     return Rat.sym('%s(%s)' % (fn, arg.canon()))
 
@@ -126,7 +126,7 @@ def dspacing(prog, chk, pi):
     vals = value_paths(it, paths)
     loc = '%s:%d' % (U, f['ln'])
     chk.floor('d-spacing value paths', len(vals), 1)
-    a, b, c, V = (Rat.sym('(crystal).' + x) for x in ('a', 'b', 'c', 'volume'))
+    a, b, c, V = (Rat.sym('crystal.' + x) for x in ('a', 'b', 'c', 'volume'))
     ca, cb, cg = trig('cos', 'alpha', pi), trig('cos', 'beta', pi), trig('cos', 'gamma', pi)
     sa2, sb2, sg2 = (Rat.const(1) - x * x for x in (ca, cb, cg))
     H, K, Lm = Rat.sym(h), Rat.sym(k), Rat.sym(l)
@@ -158,7 +158,7 @@ def dspacing(prog, chk, pi):
         # axis relabelling symmetry (a,alpha,h) -> (b,beta,k) -> (c,gamma,l) -> (a,alpha,h)
         def perm(s):
             s = s.replace('.alpha', '.\0A').replace('.beta', '.\0B').replace('.gamma', '.\0C')
-            s = s.replace('(crystal).a', '(crystal).\0a').replace('(crystal).b', '(crystal).\0b').replace('(crystal).c', '(crystal).\0c')
+            s = s.replace('crystal.a', 'crystal.\0a').replace('crystal.b', 'crystal.\0b').replace('crystal.c', 'crystal.\0c')
             s = s.replace('\0A', 'beta').replace('\0B', 'gamma').replace('\0C', 'alpha')
             s = s.replace('\0a', 'b').replace('\0b', 'c').replace('\0c', 'a')
             return s
@@ -185,7 +185,7 @@ def volume(prog, chk, pi):
     f = prog.func('Crystal_UnitCellVolume', unit=U)
     it, paths = run_function(prog, f)
     vals = value_paths(it, paths)
-    a, b, c = (Rat.sym('(crystal).' + x) for x in ('a', 'b', 'c'))
+    a, b, c = (Rat.sym('crystal.' + x) for x in ('a', 'b', 'c'))
     ca, cb, cg = trig('cos', 'alpha', pi), trig('cos', 'beta', pi), trig('cos', 'gamma', pi)
     rad = Rat.const(1) - ca * ca - cb * cb - cg * cg + Rat.const(2) * ca * cb * cg
     ok = False
@@ -259,7 +259,7 @@ def structure_factor(prog, chk, pi):
         second = its[1]
         lid = second.id
         i2 = 'i@L%d' % lid
-        at = '(crystal).atom[%s]' % i2
+        at = 'crystal.atom[%s]' % i2
         Z = Rat.sym(at + '.Zatom')
         occ = Rat.sym(at + '.fraction')
         hr = Rat.const(2) * pi * (Rat.sym(h) * Rat.sym(at + '.x') + Rat.sym(k) * Rat.sym(at + '.y') + Rat.sym(l) * Rat.sym(at + '.z'))
@@ -281,7 +281,7 @@ def structure_factor(prog, chk, pi):
                       'that atom\'s own Z; found d(re) = %s ; d(im) = %s' % (d_re.canon()[:260], d_im.canon()[:260])
         # flag table from the first loop
         first = its[0]
-        z1 = '(crystal).atom[i@L%d].Zatom' % first.id
+        z1 = 'crystal.atom[i@L%d].Zatom' % first.id
         vre = first.value.get('f_re[%s]' % z1)
         vim = first.value.get('f_im[%s]' % z1)
         flags = []
@@ -318,7 +318,7 @@ def structure_factor(prog, chk, pi):
         af = [e for e in p.events if e.kind == 'call' and e.name == 'Atomic_Factors']
         qs = [e for e in p.events if e.kind == 'call' and e.name == 'Q_scattering_amplitude']
         for e in af:
-            if not (re.match(r'^\(crystal\)\.atom\[i@L\d+\]\.Zatom$', e.args[0].canon()) and e.args[1].canon() == names[1] and
+            if not (re.match(r'^\(?crystal\)?\.atom\[i@L\d+\]\.Zatom$', e.args[0].canon()) and e.args[1].canon() == names[1] and
                     qs and e.args[2].equals(qs[0].result) and e.args[3].canon() == names[5]):
                 okaf = False
     chk.decide(okaf, 'structure-factor-sum', U, f['name'], 'atomic-factors-arguments', loc,
